@@ -578,13 +578,22 @@ Proof.
   cbn. repeat split.
 Qed.
 
-(** a RestartMessage at an actor that is already stopping is ignored *)
+(** a RestartMessage at an actor that is already stopping (or restarting) is dropped: no restart, no state
+    change; the mailbox the supervisor paused is resumed, and an actor in the middle of a stop passes an
+    immediate kill to its remaining children *)
 Lemma dispatch_MRestart_not_running s a x e poison :
   e_msg e = MRestart poison -> a_state x <> Running -> dead_for x e = false ->
-  dispatch s a x e = (set_actor s a (set_cur x e), [IEndHandler]).
+  dispatch s a x e =
+    (set_actor s a (set_cur x e),
+     [IResume1]
+     ++ (match a_state x, a_children x with
+         | Killing, _ :: _ => [IEnqAny true (map (fun p => RObj (snd p)) (a_children x)) (RObj a) (MKill (RObj a) false)]
+         | _, _ => []
+         end)
+     ++ [IEndHandler]).
 Proof.
   intros Hm Hs Hd. unfold dispatch. unfold dead_for in Hd. cbv zeta in *. rewrite Hd, Hm.
-  destruct (a_state x); [contradiction| |]; reflexivity.
+  destruct (a_state x); [contradiction| |]; destruct (a_children x); reflexivity.
 Qed.
 
 (** with [restarting] set the stop sequence ends in IRestartFinish, not in ICleanup: the registry entry, the
@@ -909,4 +918,289 @@ Lemma root_default s x c : reachable s -> get s 0 = Some x -> sup_decide x = (DS
 Proof.
   intros Hr H. destruct (root_inv s Hr) as (x0 & H0 & Hs & _). rewrite H in H0; inversion H0; subst x0.
   unfold sup_decide, sup_targets. rewrite Hs. split; reflexivity.
+Qed.
+
+(* ------------------------------------------------------------------ assembled statements *)
+
+Lemma perm_singleton {A} (a : A) l : Permutation [a] l -> l = [a].
+Proof. intros H. apply Permutation_length_1_inv. exact H. Qed.
+
+Lemma targets_order x c order :
+  pick_order (sup_targets x c) order ->
+  (sp_strategy (a_spec x) <> 2%N -> order = [sc_child c]) /\
+  (sp_strategy (a_spec x) = 2%N -> Permutation (map (fun p => RObj (snd p)) (a_children x)) order).
+Proof.
+  intros H. apply pick_order_perm in H. destruct (sup_targets_spec x c) as [H2 H1]. split.
+  - intros N. rewrite (H1 N) in H. apply perm_singleton, H.
+  - intros E. rewrite (H2 E) in H. exact H.
+Qed.
+
+Lemma pause_then_directive s t held x c d order :
+  get s (self_of t) = Some x ->
+  exec1 s t held (ISupPause c d [] order) = (s, [ISupApply c d order]) /\
+  exists ins, exec1 s t held (ISupApply c d order) = (s, ins) /\
+    map (fun r => (r, true, MCmdPause)) order ++ instr_sends ins = sup_sends (self_of t) x c d order /\
+    (forall i, In i ins -> i = IEnqDone \/ i = IPauseSt \/ exists sys to m, i = IEnq sys to (RObj (self_of t)) m) /\
+    (In IPauseSt ins <-> is_escalation d = true).
+Proof.
+  intros H. split; [apply (exec1_ISupPause_nil _ _ _ _ _ _ _ H)|].
+  destruct (exec1_ISupApply s t held x c d order H) as (ins & E & Hs & Hi & Hp).
+  exists ins. split; [exact E|]. split; [|split; assumption]. unfold sup_sends. rewrite Hs. reflexivity.
+Qed.
+
+Lemma failure_sites s a x e :
+  dead_for x e = false ->
+  (e_msg e = MLaunch ->
+     dispatch s a x e = (set_actor s a (set_cur x e), [IBeh MLaunch (sp_launch (a_spec x)) RecFail; IPub evLaunched (actor_key x); IEndHandler])) /\
+  (forall tag acts, e_msg e = MUser tag acts ->
+     dispatch s a x e = (set_actor s a (set_cur x e), [IBeh (MUser tag acts) acts RecFail; IEndHandler])) /\
+  (forall ty payload, e_msg e = MEvent ty payload ->
+     dispatch s a x e = (set_actor s a (set_cur x e), [IBeh (MEvent ty payload) [] RecFail; IEndHandler])) /\
+  (forall who, e_msg e = MKilled who ->
+     dispatch s a x e = (set_actor s a (set_cur x e), [IOnKilled who; IEndHandler])).
+Proof.
+  intros Hd. rewrite (dead_for_dispatch _ _ _ _ Hd). repeat split; intros; rewrite H; reflexivity.
+Qed.
+
+(** OnKilled of another actor (a child, a watched actor): the behaviour runs with the RecKilled recovery *)
+Lemma exec1_IOnKilled_other s t held x who :
+  get s (self_of t) = Some x -> a_zombie x = false -> ref_eq s who (RObj (self_of t)) = false ->
+  snd (exec1 s t held (IOnKilled who)) = [IBeh (MKilled who) (sp_killed (a_spec x)) (RecKilled who); ICheckMark].
+Proof. intros H Hz Hr. unfold exec1. rewrite H, Hz, Hr. reflexivity. Qed.
+
+Lemma failed_reports_to_parent s t held x :
+  get s (self_of t) = Some x ->
+  exists ins, exec1 s t held IFailed = (s, IPauseSt :: ins) /\
+    instr_sends ins = [(rref_parent x, true, MSup (SupCtx (RObj (self_of t)) [] None))] /\
+    count_sup (instr_sends ins) = 1 /\ count_failed ins = 0.
+Proof. intros H. rewrite (exec1_IFailed _ _ _ _ H). eexists; split; [reflexivity|]. repeat split. Qed.
+
+Lemma root_decides_stop s x e c :
+  reachable s -> get s 0 = Some x -> e_msg e = MSup c -> dead_for x e = false ->
+  dispatch s 0 x e = (set_actor s 0 (set_decisions (set_cur x e) (a_decisions x)), [ISupPause c DStop [sc_child c] []; IEndHandler]).
+Proof.
+  intros Hr H Hm Hd. rewrite (dispatch_MSup _ _ _ _ _ Hm Hd).
+  destruct (root_default s x c Hr H) as [-> ->]. reflexivity.
+Qed.
+
+Lemma dispatch_keeps_mail s a x e : get s a = Some x -> keeps_mail true s (fst (dispatch s a x e)).
+Proof.
+  intros Hx. unfold dispatch.
+  repeat match goal with |- context[match ?e with _ => _ end] => destruct e end; cbn [fst]; try mail_solve.
+  all: eapply keeps_mail_trans; [|apply keeps_mail_actors; reflexivity]; mail_solve.
+Qed.
+
+Lemma dispatch_direct s a x e b e' :
+  In (b, e') (instr_direct (snd (dispatch s a x e))) ->
+  dead_for x e = true /\ b = 0 /\ e' = {| e_sys := false; e_sender := root_ref; e_msg := MDeadLetter (e_sys e) (e_msg e) |}.
+Proof.
+  unfold dispatch, dead_for. cbv zeta.
+  destruct (_ && negb (a_zombie x)).
+  - destruct (a_parent x); cbn [snd instr_direct]; [|intros []]. intros [E|[]]. inversion E; subst. auto.
+  - repeat match goal with |- context[match ?e with _ => _ end] => destruct e end; cbn [snd];
+      rewrite ?instr_direct_app; cbn; intros H; try (destruct H; fail).
+Qed.
+
+Lemma stop_notifies_parent s t held x p :
+  get s (self_of t) = Some x -> a_parent x = Some p ->
+  exec1 s t held ICleanup =
+    (set_reg (set_subs s (unsub_all (subs s) (a_path x))) (aremove (reg s) (a_path x)),
+     (match a_watchers x with
+      | [] => []
+      | l => [IEnqAny true (map snd l) (RObj (self_of t)) (MKilled (RObj (self_of t)))]
+      end)
+     ++ [IEnq true (RObj p) (RObj (self_of t)) (MKilled (RObj (self_of t))); IEnqDone]
+     ++ [IPub evKilled (actor_key x); IResume1]) /\
+  instr_sends (snd (exec1 s t held ICleanup)) = [(RObj p, true, MKilled (RObj (self_of t)))].
+Proof.
+  intros H Hp. split; [|apply (cleanup_notifies_parent _ _ _ _ _ H Hp)].
+  rewrite (exec1_ICleanup _ _ _ _ H), Hp. reflexivity.
+Qed.
+
+Lemma resume_only_resumes s a x e :
+  e_msg e = MCmdResume -> dead_for x e = false ->
+  dispatch s a x e = (set_actor s a (set_cur x e), [IResume1; IPub evResumed (actor_key x); IEndHandler]) /\
+  stable x (set_cur x e) /\ same_user_state x (set_cur x e) /\ same_queues x (set_cur x e) /\ a_cons (set_cur x e) = a_cons x.
+Proof. intros Hm Hd. split; [apply dispatch_MCmdResume; assumption|apply set_cur_same]. Qed.
+
+Lemma failure_reports_once_full s t held x p m acts :
+  get s (self_of t) = Some x -> a_zombie x = false -> a_parent x = Some p ->
+  exec1 s t held (IBeh m acts RecFail) =
+    (add_obs s (OSeen (self_of t) (a_inst x) (match a_cons x with CBusy md => md | _ => mode_top x end) m),
+     map IAct (fst (take_until_panic acts)) ++ if snd (take_until_panic acts) then [IFailed] else []) /\
+  count_failed (snd (exec1 s t held (IBeh m acts RecFail))) = if snd (take_until_panic acts) then 1 else 0.
+Proof.
+  intros H Hz Hp. split; [exact (exec1_IBeh s t held x p m acts RecFail H Hz Hp)|apply (failure_reports_once _ _ _ _ _ _ _ H Hz Hp)].
+Qed.
+
+(* ------------------------------------------------------------------ interleaving does not disturb a handler *)
+
+Lemma nth_error_map_eq {A B} (f : A -> B) (l1 l2 : list A) i :
+  map f l1 = map f l2 ->
+  match nth_error l1 i with Some x => Some (f x) | None => None end =
+  match nth_error l2 i with Some x => Some (f x) | None => None end.
+Proof.
+  revert l2 i; induction l1 as [|h t IH]; intros [|h2 t2] [|i] E; cbn in *; try discriminate; auto.
+  - inversion E. congruence.
+  - inversion E. apply IH. assumption.
+Qed.
+
+Lemma pend_of_set_pend_other s t0 p t : t <> t0 -> pend_of (set_pend s t0 p) t = pend_of s t.
+Proof.
+  intros N. destruct t0 as [a|i]; cbn [set_pend]; unfold with_actor.
+  - destruct (get s a) as [x|] eqn:E; [|reflexivity]. destruct t as [b|j]; [|reflexivity].
+    cbn [pend_of]. rewrite get_set_actor_other; [reflexivity|congruence].
+  - destruct (nth_error (exts s) i) as [x|] eqn:E; [|reflexivity]. destruct t as [b|j]; [reflexivity|].
+    cbn [pend_of exts set_ext]. rewrite nth_error_upd_other; [reflexivity|congruence].
+Qed.
+
+Lemma prim_pend_frame t0 s s' t : prim t0 s s' -> t <> t0 -> pend_of s' t = pend_of s t.
+Proof.
+  intros Hp N. destruct Hp; try reflexivity.
+  - destruct t as [b|j]; [|reflexivity]. cbn [pend_of]. destruct (Nat.eq_dec a b) as [->|Nb].
+    + rewrite (get_set_actor_same _ _ _ _ H), H. destruct H0 as (_ & _ & _ & _ & E). exact E.
+    + rewrite get_set_actor_other by exact Nb. reflexivity.
+  - apply pend_of_set_pend_other, N.
+  - destruct t as [b|j]; cbn [pend_of].
+    + unfold get; cbn [actors]. destruct (nth_error (actors s) b) as [y|] eqn:E.
+      * rewrite nth_error_app1; [rewrite E; reflexivity|apply nth_error_Some; congruence].
+      * apply nth_error_None in E. destruct (Nat.eq_dec b (length (actors s))) as [->|Nb].
+        -- rewrite nth_error_app2 by lia. rewrite Nat.sub_diag. reflexivity.
+        -- rewrite (proj2 (nth_error_None _ _)); [reflexivity|]. rewrite app_length. cbn. lia.
+    + cbn [exts]. pose proof (nth_error_map_eq x_pend exts' (exts s) j H) as E.
+      destruct (nth_error exts' j), (nth_error (exts s) j); inversion E; congruence.
+Qed.
+
+Lemma prims_pend_frame t0 s s' t : prims t0 s s' -> t <> t0 -> pend_of s' t = pend_of s t.
+Proof. intros H N. induction H; [reflexivity|]. rewrite (prim_pend_frame _ _ _ _ H0 N). exact IHprims. Qed.
+
+(** a step performed by another thread leaves the instruction list of thread [t] as it is *)
+Lemma step_pend_frame s ev t : ev_thread ev <> t -> pend_of (step s ev) t = pend_of s t.
+Proof. intros N. eapply prims_pend_frame; [apply step_prims|congruence]. Qed.
+
+Lemma pend_of_set_actor_keep s a x x' t : get s a = Some x -> a_pend x' = a_pend x -> pend_of (set_actor s a x') t = pend_of s t.
+Proof.
+  intros H E. destruct t as [b|j]; [|reflexivity]. cbn [pend_of]. destruct (Nat.eq_dec a b) as [->|N].
+  - rewrite (get_set_actor_same _ _ _ _ H), H. exact E.
+  - rewrite get_set_actor_other by exact N. reflexivity.
+Qed.
+
+(** the consumer's queue operations never touch an instruction list *)
+Lemma consumer_pend_frame s a t :
+  pend_of (step s (EvSysPop a)) t = pend_of s t /\
+  pend_of (step s (EvLoadPaused a)) t = pend_of s t /\
+  pend_of (step s (EvUserPop a)) t = pend_of s t.
+Proof.
+  cbn [step]. destruct (get s a) as [x|] eqn:H; [|auto].
+  repeat split.
+  - destruct (a_cons x), (a_sq x); try reflexivity; apply (pend_of_set_actor_keep _ _ _ _ _ H); reflexivity.
+  - destruct (a_cons x); try reflexivity; apply (pend_of_set_actor_keep _ _ _ _ _ H); reflexivity.
+  - destruct (a_cons x), (a_uq x); try reflexivity; apply (pend_of_set_actor_keep _ _ _ _ _ H); reflexivity.
+Qed.
+
+Lemma run_atomic_err f s t : err s = true -> err (run_atomic f s t) = true.
+Proof. intros H. eapply (prims_inv (fun s => err s = true)); [intros; eapply prim_err; eassumption|apply run_atomic_prims|exact H]. Qed.
+
+Lemma tid_eq_dec (t1 t2 : tid) : {t1 = t2} + {t1 <> t2}.
+Proof. decide equality; apply Nat.eq_dec. Qed.
+
+Lemma run_atomic_yield f s t i rest : pend_of s t = i :: rest -> yielding i = true -> run_atomic (S f) s t = s.
+Proof. intros Hp Hy. cbn [run_atomic]. rewrite Hp. destruct i; try discriminate; rewrite ?Hy; reflexivity. Qed.
+
+Lemma FUEL_S : exists f, FUEL = S f.
+Proof. exists 3999. reflexivity. Qed.
+
+(** the pause phase of the supervision handler of thread [t], under ANY interleaving: a step either leaves
+    the phase's instruction list as it is, or is the thread's own queue insertion of the next pause
+    (EvPush: target [to] chosen, moved from [rem] to [done]), or the end of that Enqueue (EvEnqDone; when
+    nothing remains the atomic run that follows starts with [ISupPause c d [] done], i.e. applies the decision).
+    (An actor's handler is entered by EvHandle only when no handler is running: hypothesis on [ev].) *)
+Lemma sup_pause_phase_step s t c d rem done rest ev :
+  (forall a, t = TA a -> ev <> EvHandle a) -> err (step s ev) = false ->
+  (pend_of s t = ISupPause c d rem done :: rest -> rem <> [] ->
+     pend_of (step s ev) t = ISupPause c d rem done :: rest \/
+     exists k to, ev = EvPush t k /\ nth_error rem k = Some to /\
+        pend_of (step s ev) t = IEnqDone :: ISupPause c d (remove_nth k rem) (done ++ [to]) :: rest) /\
+  (pend_of s t = IEnqDone :: ISupPause c d rem done :: rest ->
+     pend_of (step s ev) t = IEnqDone :: ISupPause c d rem done :: rest \/
+     (ev = EvEnqDone t /\ step s ev = run_atomic FUEL (set_pend s t (ISupPause c d rem done :: rest)) t /\
+      (rem <> [] -> pend_of (step s ev) t = ISupPause c d rem done :: rest))).
+Proof.
+  intros Hh He. destruct FUEL_S as [fu Hfu].
+  destruct (tid_eq_dec (ev_thread ev) t) as [Et|Nt];
+    [|split; intros Hp; [intros _|]; left; rewrite (step_pend_frame _ _ _ Nt); exact Hp].
+  destruct ev as [a|a|a|a|t' k|t'|t'|t'|t'|i]; cbn [ev_thread] in Et; subst t.
+  - destruct (consumer_pend_frame s a (TA a)) as (E & _ & _). rewrite E. split; auto.
+  - destruct (consumer_pend_frame s a (TA a)) as (_ & E & _). rewrite E. split; auto.
+  - destruct (consumer_pend_frame s a (TA a)) as (_ & _ & E). rewrite E. split; auto.
+  - exfalso. apply (Hh a eq_refl eq_refl).
+  - split; intros Hp.
+    + intros _. right. destruct (step_ISupPause s t' k c d rem done rest Hp He) as (to & Hk & _ & E). eauto.
+    + exfalso. cbn [step] in He. rewrite Hp in He. discriminate.
+  - split; intros Hp.
+    + exfalso. cbn [step] in He. rewrite Hp in He. discriminate.
+    + right. split; [reflexivity|]. cbn [step] in *. rewrite Hp in *. split; [reflexivity|]. intros Hr.
+      destruct (err (set_pend s t' (ISupPause c d rem done :: rest))) eqn:E1.
+      * rewrite (run_atomic_err _ _ _ E1) in He. discriminate.
+      * pose proof (pend_of_set_pend _ _ _ E1) as E2. rewrite Hfu.
+        rewrite (run_atomic_yield _ _ _ _ _ E2); [exact E2|]. destruct rem; [contradiction|reflexivity].
+  - split; intros Hp; [intros _|]; exfalso; cbn [step] in He; rewrite Hp in He; discriminate.
+  - split; intros Hp; [intros _|]; exfalso; cbn [step] in He; rewrite Hp in He; discriminate.
+  - split; intros Hp; [intros _|]; exfalso; cbn [step] in He; rewrite Hp in He; discriminate.
+  - cbn [step]. rewrite Hfu. split; intros Hp; [intros Hr|]; left.
+    + rewrite (run_atomic_yield _ _ _ _ _ Hp); [exact Hp|]. destruct rem; [contradiction|reflexivity].
+    + rewrite (run_atomic_yield _ _ _ _ _ Hp); [exact Hp|reflexivity].
+Qed.
+
+(** the same for a map range (children of a stopping actor, watchers, the subscriber snapshot of a publish) *)
+Lemma enq_any_phase_step s t sys tos sender m rest ev :
+  (forall a, t = TA a -> ev <> EvHandle a) -> err (step s ev) = false ->
+  pend_of s t = IEnqAny sys tos sender m :: rest ->
+  pend_of (step s ev) t = IEnqAny sys tos sender m :: rest \/
+  exists k to, ev = EvPush t k /\ nth_error tos k = Some to /\
+    pend_of (step s ev) t = IEnqDone :: match remove_nth k tos with [] => rest | _ :: _ => IEnqAny sys (remove_nth k tos) sender m :: rest end.
+Proof.
+  intros Hh He Hp. destruct FUEL_S as [fu Hfu].
+  destruct (tid_eq_dec (ev_thread ev) t) as [Et|Nt]; [|left; rewrite (step_pend_frame _ _ _ Nt); exact Hp].
+  destruct ev as [a|a|a|a|t' k|t'|t'|t'|t'|i]; cbn [ev_thread] in Et; subst t.
+  - destruct (consumer_pend_frame s a (TA a)) as (E & _ & _). rewrite E. auto.
+  - destruct (consumer_pend_frame s a (TA a)) as (_ & E & _). rewrite E. auto.
+  - destruct (consumer_pend_frame s a (TA a)) as (_ & _ & E). rewrite E. auto.
+  - exfalso. apply (Hh a eq_refl eq_refl).
+  - right. destruct (step_IEnqAny s t' k sys tos sender m rest Hp He) as (to & Hk & _ & E). eauto.
+  - exfalso; cbn [step] in He; rewrite Hp in He; discriminate.
+  - exfalso; cbn [step] in He; rewrite Hp in He; discriminate.
+  - exfalso; cbn [step] in He; rewrite Hp in He; discriminate.
+  - exfalso; cbn [step] in He; rewrite Hp in He; discriminate.
+  - left. cbn [step]. rewrite Hfu. rewrite (run_atomic_yield _ _ _ _ _ Hp); [exact Hp|reflexivity].
+Qed.
+
+(* ------------------------------------------------------------------ failure reports from a stopping actor *)
+
+(** which handlers of an actor that is not running (and not a zombie) run user code under RecFail: only
+    system-flagged OnLaunch / user-kind messages in state killing (user-kind messages are never sent with the
+    system flag; OnLaunch is) *)
+Lemma stopping_recfail_only_launch s a x e m acts :
+  a_state x <> Running -> a_zombie x = false -> In (IBeh m acts RecFail) (snd (dispatch s a x e)) ->
+  a_state x = Killing /\ e_sys e = true /\
+  (e_msg e = MLaunch \/ (exists tag acts', e_msg e = MUser tag acts') \/ (exists ty pl, e_msg e = MEvent ty pl) \/
+   exists sy inner, e_msg e = MDeadLetter sy inner).
+Proof.
+  intros Hs Hz. unfold dispatch. cbv zeta. rewrite Hz.
+  destruct (a_state x); [contradiction| |].
+  - destruct (e_sys e), (e_msg e); cbn [negb andb snd];
+      repeat match goal with |- context[match ?e with _ => _ end] => destruct e end; cbn [snd];
+      intros H; repeat (destruct H as [H|H]; try discriminate); try (destruct H; fail); eauto 10.
+    all: try (apply in_app_or in H as [H|H]; repeat (destruct H as [H|H]; try discriminate); destruct H).
+  - destruct (a_parent x); cbn [snd]; intros H; repeat (destruct H as [H|H]; try discriminate); destruct H.
+Qed.
+
+(** ... and that case is reachable: a reachable state in which an actor in state killing has just produced a
+    failure report (its own mailbox pause + the supervision report to its parent are the next instructions) *)
+Lemma stopping_failure_witness :
+  exists s a x rest, reachable s /\ get s a = Some x /\ a_state x = Killing /\ a_zombie x = false /\
+    a_pend x = IPauseSt :: IEnq true (rref_parent x) (RObj a) (MSup (SupCtx (RObj a) [] None)) :: rest.
+Proof.
+  exists wit_state, 1. eexists; eexists. split; [exists wit_scripts, wit_events; split; [reflexivity|vm_compute; reflexivity]|].
+  vm_compute. repeat split.
 Qed.
